@@ -9,14 +9,14 @@ import (
 	"math/rand"
 
 	corev1 "k8s.io/api/core/v1"
-	metav1 "k8s.io/apimachinery/pkg/apis/meta/v1"
 	"k8s.io/apimachinery/pkg/api/resource"
+	metav1 "k8s.io/apimachinery/pkg/apis/meta/v1"
 	"k8s.io/apimachinery/pkg/types"
 )
 
-func bp(b bool) *bool       { return &b }
-func ip(i int64) *int64     { return &i }
-func sp(s string) *string   { return &s }
+func bp(b bool) *bool     { return &b }
+func ip(i int64) *int64   { return &i }
+func sp(s string) *string { return &s }
 
 // Named is a generated pod with a description of how it was made.
 type Named struct {
